@@ -893,3 +893,4 @@ EXPLANATION += (' Location-independent additions: PIANOROLL/wide-label (no numpy
 EXPLANATION += (' Round 6: ' + 'GEN/sampled-size: the size given to np.random.choice is the length of a distribution taken from the same element as p.')
 EXPLANATION += (' Round 7: ' + 'GEN/steps-by-decoding (every labels_to_num_steps decodes its labels or delegates); NOTEPERF/pitch-block-size.')
 EXPLANATION += (' Rounds 9-10: ' + 'PITFALL/unforwarded-parameter over the encoder classes (constructors and base constructors resolved through the hierarchy).')
+EXPLANATION += (' Round 11: ' + 'DEFAULT/event-of-the-encoding; PITFALL/falsy-domain-zero over the encoders; SIZE/slice-store-width.')
